@@ -1,6 +1,7 @@
 import Wee.Gen.EvalFns
 import Wee.Model.Eval
 import Wee.Proofs.CoreFnsBridge
+import Wee.Proofs.GenMovesBridge
 import Wee.Proofs.EvalLemmas
 /-!
 # Bridge: the static evaluator translated from the Rust source text (`Wee/Gen/EvalFns.lean`, produced by
@@ -14,6 +15,13 @@ bounds, `unwrap` of `None`).  Every bridge theorem has the form
 ("whenever the Rust function returns, it returns the model's value"; in the release profile, which differs from the
 debug profile only where the latter panics, the same value is computed).  Float arithmetic is the model's soft-float on
 both sides, operation by operation in Rust's order, so the equalities are exact.
+
+Bridged: the four term functions, `StateVariation::from` (`StateVariation.from_State_eq`), `Evaluator::evaluate`
+(`Evaluator.evaluate_eq`: terminal test, `king_has_move` shortcut, perspective sign, the weighted loop over
+`EVALUATORS`, the clamp) and `Evaluator::estimate` (`Evaluator.estimate_eq`).  There is no seam: `Board::is_check`,
+`Board::colored_attacks`, `Board::colored_pawn_attacks` and `MoveGenerator::compute_legal_moves` are the stage-3a
+translations (`Wee/Gen/GenMoves.lean`), discharged with `Board.is_check_eq`, `Board.colored_attacks_eq`,
+`Board.colored_pawn_attacks_eq`, `MoveGenerator.compute_legal_moves_model` (`Wee/Proofs/GenMovesBridge*.lean`).
 -/
 set_option maxRecDepth 100000
 set_option linter.unusedSimpArgs false
@@ -547,6 +555,578 @@ theorem evaluate_force_king_to_edge.evaluate_eq {sv : StateVariation} {v : Varia
           rw [k10] at q15
           rw [k6] at q14
           exact ke_arith _ _ _ _ _ _ _ _ _ q13 q14 q15 q16
+
+/-! ## `StateVariation::from(&State)` -/
+
+/-- the men of colour `c` among the (colour, piece) pairs already counted -/
+def cntOf (s : Wee.State) (done : List (Color × Piece)) (c : Color) : Nat :=
+  (done.map fun cp => if cp.1 = c then pieceCount s cp.1 cp.2 else 0).sum
+
+theorem cntOf_append (s : Wee.State) (d : List (Color × Piece)) (c c' : Color) (p : Piece) :
+    cntOf s (d ++ [(c, p)]) c' = cntOf s d c' + (if c = c' then pieceCount s c p else 0) := by
+  simp [cntOf, List.map_append, List.sum_append]
+
+/-- loop invariant of the two nested `for` loops of `StateVariation::from`: `(color_counts, piece_counts)` after the
+pairs `done` -/
+structure SVInv (s : Wee.State) (done : List (Color × Piece)) (st : Array UInt8 × Array UInt8) : Prop where
+  ccs : st.1.size = 2
+  pcs : st.2.size = 16
+  cc : ∀ c : Color, ∃ x, st.1[c.idx]? = some x ∧ x.toNat = cntOf s done c
+  pc : ∀ (c : Color) (p : Piece), ∃ x, st.2[(PieceIndex.new c p).toNat]? = some x ∧
+    ((c, p) ∈ done → x.toNat = pieceCount s c p) ∧ ((c, p) ∉ done → x = 0)
+
+theorem foldlM_inv {σ α : Type} (f : σ → α → Option σ) (P : List α → σ → Prop)
+    (step : ∀ d st x st', P d st → f st x = some st' → P (d ++ [x]) st') :
+    ∀ (l : List α) (d : List α) (st r : σ), P d st → List.foldlM f st l = some r → P (d ++ l) r
+  | [], d, st, r, hP, h => by
+    simp only [List.foldlM_nil, Option.pure_def, Option.some.injEq] at h
+    subst h; simpa using hP
+  | x :: t, d, st, r, hP, h => by
+    rw [List.foldlM_cons] at h
+    cases hb : f st x with
+    | none => rw [hb] at h; cases h
+    | some st1 =>
+      rw [hb] at h
+      have := foldlM_inv f P step t (d ++ [x]) st1 r (step d st x st1 hP hb) h
+      simpa [List.append_assoc] using this
+
+theorem count_u8 (b : UInt64) : (UInt32.toUInt8 (BitBoard.count_ones b)).toNat = popcount b := by
+  have h := popcount_le b
+  rw [BitBoard.count_ones_eq, UInt32.toNat_toUInt8]
+  simp [Nat.toUInt32, UInt32.toNat_ofNat', Nat.mod_eq_of_lt (show popcount b < 2 ^ 32 by omega)]
+  omega
+
+theorem PieceIndex.new_inj (c c' : Color) (p p' : Piece) (h : (PieceIndex.new c p).toNat = (PieceIndex.new c' p').toNat) :
+    c = c' ∧ p = p' := by
+  cases c <;> cases c' <;> cases p <;> cases p' <;> first | exact ⟨rfl, rfl⟩ | (exfalso; revert h; decide)
+
+theorem color_idx_inj (c c' : Color) (h : c.idx = c'.idx) : c = c' := by
+  cases c <;> cases c' <;> first | rfl | cases h
+
+/-- one iteration of the inner loop keeps the invariant -/
+theorem sv_step (s : Wee.State) (c : Color) (p : Piece) (d : List (Color × Piece)) (cc pc : Array UInt8)
+    (st' : Array UInt8 × Array UInt8) (hI : SVInv s d (cc, pc))
+    (hb : ((ArrayMap.index cc (Index.from_Color c)).bind fun t4 =>
+            (UInt8.checked_add t4 (UInt32.toUInt8 (BitBoard.count_ones (s.pieces.get c p)))).bind fun t5 =>
+            (ArrayMap.set cc (Index.from_Color c) t5).bind fun t6 =>
+            (ArrayMap.set pc (Index.from_PieceIndex (PieceIndex.new c p))
+              (UInt32.toUInt8 (BitBoard.count_ones (s.pieces.get c p)))).bind fun t7 =>
+            some (t6, t7)) = some st') :
+    SVInv s (d ++ [(c, p)]) st' := by
+  obtain ⟨t4, ht4, hb⟩ := Option.bind_eq_some_iff.1 hb
+  obtain ⟨t5, ht5, hb⟩ := Option.bind_eq_some_iff.1 hb
+  obtain ⟨t6, ht6, hb⟩ := Option.bind_eq_some_iff.1 hb
+  obtain ⟨t7, ht7, hb⟩ := Option.bind_eq_some_iff.1 hb
+  cases hb
+  have e5 := u8_checked_add_some ht5
+  rw [count_u8] at e5
+  unfold ArrayMap.index at ht4
+  unfold ArrayMap.set at ht6 ht7
+  rw [Index.from_Color_toNat] at ht4 ht6
+  rw [Index.from_PieceIndex_toNat] at ht7
+  split at ht6
+  case isFalse => cases ht6
+  rename_i h6
+  split at ht7
+  case isFalse => cases ht7
+  rename_i h7
+  cases ht6; cases ht7
+  refine ⟨by simpa using hI.ccs, by simpa using hI.pcs, ?_, ?_⟩
+  · intro c'
+    simp only [Array.getElem?_setIfInBounds, cntOf_append]
+    by_cases hc : c.idx = c'.idx
+    · have := color_idx_inj _ _ hc
+      subst this
+      obtain ⟨x, hx, hxv⟩ := hI.cc c
+      simp only at hx
+      rw [hx] at ht4; cases ht4
+      refine ⟨t5, by simp [h6], ?_⟩
+      rw [e5, hxv]; simp [pieceCount]
+    · obtain ⟨x, hx, hxv⟩ := hI.cc c'
+      refine ⟨x, by simpa [hc] using hx, ?_⟩
+      have : ¬ c = c' := fun e => hc (by rw [e])
+      rw [hxv]; simp [this]
+  · intro c' p'
+    simp only [Array.getElem?_setIfInBounds]
+    by_cases hi : (PieceIndex.new c p).toNat = (PieceIndex.new c' p').toNat
+    · obtain ⟨rfl, rfl⟩ := PieceIndex.new_inj _ _ _ _ hi
+      refine ⟨UInt32.toUInt8 (BitBoard.count_ones (s.pieces.get c p)), by simp [h7], fun _ => by rw [count_u8]; rfl, fun hn => ?_⟩
+      exact absurd (List.mem_append_right _ (List.mem_singleton.2 rfl)) hn
+    · obtain ⟨x, hx, hx1, hx2⟩ := hI.pc c' p'
+      have hne : (c', p') ≠ (c, p) := by
+        intro e; injection e with e1 e2; subst e1; subst e2; exact hi rfl
+      refine ⟨x, by simpa [hi] using hx, fun hm => hx1 ?_, fun hn => hx2 (fun hm => hn (List.mem_append_left _ hm))⟩
+      rcases List.mem_append.1 hm with hm | hm
+      · exact hm
+      · exact absurd (List.mem_singleton.1 hm) hne
+
+/-- all (colour, piece) pairs in the order of the loops -/
+def allPairs : List (Color × Piece) := Color.ALL.flatMap fun c => Piece.ALL.map fun p => (c, p)
+
+theorem cntOf_all (s : Wee.State) (c : Color) : cntOf s allPairs c = (Variation.of s).count c := by
+  cases c <;> simp [cntOf, allPairs, Color.ALL, Piece.ALL, Variation.of, Variation.count, Piece.all]
+
+theorem mem_allPairs (c : Color) (p : Piece) : (c, p) ∈ allPairs ↔ p ≠ .none := by
+  cases c <;> cases p <;> decide
+
+theorem egw_den_ne :
+    ¬ (F32.add (F32.add (f32.ofBits 0x40400000) (f32.ofBits 0x3f800000)) (f32.ofBits 0x3f800000) = 0) := by decide +kernel
+
+theorem popcount_zero' : popcount 0 = 0 := by decide
+
+theorem occ_count (s : Wee.State) :
+    Int.ofNat (UInt32.toNat (BitBoard.count_ones s.pieces.occ)) = ((popcount s.pieces.occ : Nat) : Int) := by
+  have h := popcount_le s.pieces.occ
+  rw [BitBoard.count_ones_eq]
+  simp [Nat.toUInt32, UInt32.toNat_ofNat', Nat.mod_eq_of_lt (show popcount s.pieces.occ < 2 ^ 32 by omega)]
+
+/-- **`StateVariation::from(&State)`**: when it returns, the result represents the model's `Variation.of s` (same
+state, same end-game weight, the count tables hold the model's counts) -/
+theorem StateVariation.from_State_eq (s : Wee.State) (sv : StateVariation)
+    (h : StateVariation.from_State (stateOf s) = some sv) : SVRep sv (Variation.of s) := by
+  unfold StateVariation.from_State at h
+  simp only [Option.bind_eq_bind] at h
+  obtain ⟨st, hst, h⟩ := Option.bind_eq_some_iff.1 h
+  -- the two loops
+  have hI : SVInv s allPairs st := by
+    have h0 : SVInv s [] (Array.replicate 2 (0 : UInt8), Array.replicate 16 (0 : UInt8)) := by
+      refine ⟨rfl, rfl, fun c => ⟨0, by cases c <;> rfl, rfl⟩, fun c p => ⟨0, ?_, fun hm => (by cases hm), fun _ => rfl⟩⟩
+      cases c <;> cases p <;> rfl
+    have := foldlM_inv _ (fun (dc : List Color) st => SVInv s (dc.flatMap fun c => Piece.ALL.map fun p => (c, p)) st)
+      ?_ Color.ALL [] _ st (by simpa using h0) hst
+    · simpa [allPairs] using this
+    · intro dc st0 c st1 hP hb
+      obtain ⟨st2, hst2, hb⟩ := Option.bind_eq_some_iff.1 hb
+      simp only [Option.pure_def, Option.some.injEq] at hb
+      subst hb
+      have := foldlM_inv _ (fun (dp : List Piece) st =>
+        SVInv s ((dc.flatMap fun c => Piece.ALL.map fun p => (c, p)) ++ dp.map fun p => (c, p)) st)
+        ?_ Piece.ALL [] _ st2 (by simpa using hP) hst2
+      · simpa [List.flatMap_append] using this
+      · intro dp sta p stb hPa hba
+        have := sv_step s c p _ sta.1 sta.2 stb hPa (by
+          simpa only [Board.piece_occupancy_stateOf, Option.bind_eq_bind, Option.bind_some, Option.pure_def] using hba)
+        simpa [List.map_append, List.append_assoc] using this
+  -- `count_pieces`
+  have hcp : ∀ p : Piece, p ≠ .none → ∀ r,
+      ((ArrayMap.index st.2 (Index.from_PieceIndex (PieceIndex.new Color.white p))).bind fun t9 =>
+        (ArrayMap.index st.2 (Index.from_PieceIndex (PieceIndex.new Color.black p))).bind fun t10 =>
+        (UInt8.checked_add t9 t10).bind fun t11 => some (F32.ofInt (Int.ofNat (UInt8.toNat t11)))) = some r →
+      r = F32.ofInt ((pieceCount s .white p + pieceCount s .black p : Nat) : Int) := by
+    intro p hp r hr
+    obtain ⟨t9, ht9, hr⟩ := Option.bind_eq_some_iff.1 hr
+    obtain ⟨t10, ht10, hr⟩ := Option.bind_eq_some_iff.1 hr
+    obtain ⟨t11, ht11, hr⟩ := Option.bind_eq_some_iff.1 hr
+    cases hr
+    unfold ArrayMap.index at ht9 ht10
+    rw [Index.from_PieceIndex_toNat] at ht9 ht10
+    obtain ⟨x, hx, hx1, _⟩ := hI.pc .white p
+    obtain ⟨y, hy, hy1, _⟩ := hI.pc .black p
+    rw [hx] at ht9; cases ht9
+    rw [hy] at ht10; cases ht10
+    rw [u8_checked_add_some ht11, hx1 ((mem_allPairs _ _).2 hp), hy1 ((mem_allPairs _ _).2 hp)]
+    rfl
+  simp only [Option.pure_def] at h
+  obtain ⟨c12, h12, h⟩ := Option.bind_eq_some_iff.1 h
+  obtain ⟨c13, h13, h⟩ := Option.bind_eq_some_iff.1 h
+  obtain ⟨c14, h14, h⟩ := Option.bind_eq_some_iff.1 h
+  cases h
+  have e12 := hcp .pawn (by decide) c12 h12
+  have e13 := hcp .queen (by decide) c13 h13
+  obtain ⟨l1, l2, l3, l4, l5, l6, l7, lw1, lw2, lw3, ld1, ld2, ld3, lone⟩ := f32_literals
+  rw [e12, e13, Board.occupancy_stateOf, occ_count] at h14
+  unfold f32.checked_div at h14
+  rw [if_neg egw_den_ne] at h14
+  cases h14
+  refine ⟨rfl, ?_, ?_, ?_⟩
+  · show F32.sub (f32.ofBits 0x3f800000) _ = _
+    unfold Variation.of
+    simp only
+    rw [← lw1, ← lw2, ← lw3, ← ld1, ← ld2, ← ld3, ← lone]
+  · intro c p x hx
+    unfold ArrayMap.index at hx
+    rw [Index.from_PieceIndex_toNat] at hx
+    obtain ⟨y, hy, hy1, hy2⟩ := hI.pc c p
+    rw [show (StateVariation.f_piece_counts _) = st.2 from rfl] at hx
+    rw [hy] at hx; cases hx
+    by_cases hp : p = .none
+    · subst hp
+      rw [hy2 (fun hm => ((mem_allPairs _ _).1 hm) rfl)]
+      cases c <;> exact popcount_zero'.symm
+    · exact hy1 ((mem_allPairs _ _).2 hp)
+  · intro c x hx
+    unfold ArrayMap.index at hx
+    rw [Index.from_Color_toNat] at hx
+    obtain ⟨y, hy, hy1⟩ := hI.cc c
+    rw [show (StateVariation.f_color_counts _) = st.1 from rfl] at hx
+    rw [hy] at hx; cases hx
+    rw [hy1, cntOf_all]
+
+/-! ## `Evaluator::evaluate` -/
+
+/-- `State::is_check` (translated here) through stage 3a's `Board::is_check` -/
+theorem State.is_check_eq (s : Wee.State) : State.is_check (stateOf s) = some s.isCheck := by
+  unfold State.is_check
+  have e : State.f_board (stateOf s) = boardOf s.pieces := rfl
+  have t : State.f_turn_to_move (stateOf s) = s.turn := rfl
+  rw [e, t, Board.is_check_eq]
+  rfl
+
+theorem clampHeuristic_int (e : Int) :
+    clampHeuristic e = if e < -9999 then -9999 else if e > 9999 then 9999 else e := by
+  have n : Ev.negInf = (-10000 : Int) := by decide
+  have p : Ev.posInf = (10000 : Int) := by decide
+  unfold clampHeuristic
+  rw [n, p]
+  show (max (-10000 + 1) (min (10000 - 1) e) : Int) = _
+  omega
+
+/-- `eval.clamp(NEG_INF + 1, POS_INF - 1)` = the model's `clampHeuristic`; it never panics -/
+theorem i32_clamp_eq (x : Int32) :
+    i32_clamp x (Evaluation.NEG_INF + (1 : Int32)) (Evaluation.POS_INF - (1 : Int32)) =
+      some (Int32.ofInt (clampHeuristic x.toInt)) ∧
+    (Int32.ofInt (clampHeuristic x.toInt)).toInt = clampHeuristic x.toInt := by
+  have c1 : (Evaluation.NEG_INF + (1 : Int32)).toInt = (-9999 : Int) := by decide
+  have c2 : (Evaluation.POS_INF - (1 : Int32)).toInt = (9999 : Int) := by decide
+  have hx1 := Int32.le_toInt x
+  have hx2 := Int32.toInt_lt x
+  have hcl : (Int32.ofInt (clampHeuristic x.toInt)).toInt = clampHeuristic x.toInt := by
+    rw [clampHeuristic_int]
+    apply Int32.toInt_ofInt_of_le <;> omega
+  refine ⟨?_, hcl⟩
+  unfold i32_clamp
+  have hle : Evaluation.NEG_INF + (1 : Int32) ≤ Evaluation.POS_INF - (1 : Int32) := by decide
+  rw [if_pos hle]
+  congr 1
+  apply Int32.toInt_inj.1
+  rw [hcl, clampHeuristic_int]
+  by_cases h1 : x < Evaluation.NEG_INF + (1 : Int32)
+  · rw [if_pos h1]
+    rw [Int32.lt_iff_toInt_lt] at h1
+    rw [c1] at h1 ⊢
+    rw [if_pos h1]
+  · rw [if_neg h1]
+    rw [Int32.lt_iff_toInt_lt, c1] at h1
+    rw [if_neg h1]
+    by_cases h2 : x > Evaluation.POS_INF - (1 : Int32)
+    · rw [if_pos h2]
+      have h2' : (Evaluation.POS_INF - (1 : Int32)).toInt < x.toInt := Int32.lt_iff_toInt_lt.1 h2
+      rw [c2] at h2' ⊢
+      rw [if_pos h2']
+    · rw [if_neg h2]
+      have h2' : ¬ (Evaluation.POS_INF - (1 : Int32)).toInt < x.toInt := fun hh => h2 (Int32.lt_iff_toInt_lt.2 hh)
+      rw [c2] at h2'
+      rw [if_neg h2']
+
+theorem weights_eq : f32.ofBits 0x3f800000 = mkRat 1 1 ∧ f32.ofBits 0x3f4ccccd = mkRat 13421773 16777216 ∧
+    f32.ofBits 0x3e4ccccd = mkRat 13421773 67108864 := by decide +kernel
+
+theorem evalHeuristic_unfold (v : Variation) (c : Color) :
+    evalHeuristic v c =
+      0 + Ev.mulF (evalWorths v c - evalWorths v c.opp) (mkRat 1 1)
+        + Ev.mulF (evalSquares v c - evalSquares v c.opp) (mkRat 13421773 16777216)
+        + Ev.mulF (evalKingEdge v c - evalKingEdge v c.opp) (mkRat 1 1)
+        + Ev.mulF (evalBadPawns v c - evalBadPawns v c.opp) (mkRat 13421773 67108864) := rfl
+
+/-- one iteration of the `for (w, f) in self.fns` loop for a term function that adds the model's term `M` -/
+theorem heur_term {sv : StateVariation} {v : Variation}
+    (T : StateVariation → Color → Evaluation → Bool → Panics Evaluation) (M : Variation → Color → Eval)
+    (hT : ∀ (c : Color) (e0 r : Int32) (b : Bool), T sv c e0 b = some r → r.toInt = e0.toInt + M v c)
+    (w : Rat) (c : Color) (init res : Bool × Int32 × Bool) (hi1 : init.1 = false) (hi2 : init.2.2 = false)
+    (h : (if init.2.2 = true then some init else
+        ((T sv c Evaluation.EVEN init.1).bind fun e => some (e, init.1)).bind fun t17 =>
+        ((T sv (Color.not c) Evaluation.EVEN t17.2).bind fun e => some (e, t17.2)).bind fun t18 =>
+        (Evaluation.sub_Evaluation t17.1 t18.1).bind fun t19 =>
+        (Evaluation.add_assign_Evaluation init.2.1 (Evaluation.mul_f32 t19 w)).bind fun t20 =>
+        some (t18.2, t20, t18.2)) = some res) :
+    res.1 = false ∧ res.2.2 = false ∧ res.2.1.toInt = init.2.1.toInt + Ev.mulF (M v c - M v c.opp) w := by
+  rw [if_neg (by simp [hi2])] at h
+  obtain ⟨t17, h1, h⟩ := Option.bind_eq_some_iff.1 h
+  obtain ⟨e1, h1', h1⟩ := Option.bind_eq_some_iff.1 h1
+  cases h1
+  obtain ⟨t18, h2, h⟩ := Option.bind_eq_some_iff.1 h
+  obtain ⟨e2, h2', h2⟩ := Option.bind_eq_some_iff.1 h2
+  cases h2
+  obtain ⟨e, h3, h⟩ := Option.bind_eq_some_iff.1 h
+  obtain ⟨a, h4, h⟩ := Option.bind_eq_some_iff.1 h
+  cases h
+  refine ⟨hi1, hi1, ?_⟩
+  show a.toInt = _
+  rw [Evaluation.add_assign_some h4, Evaluation.mul_f32_eq, Evaluation.sub_some h3, hT _ _ _ _ h1', hT _ _ _ _ h2',
+    Evaluation.consts_eq.2.2.2, Color.not_eq]
+  simp
+
+/-- the heuristic part of `Evaluator::evaluate` (the loop over `EVALUATORS` and the clamp) -/
+theorem heuristic_eq {sv : StateVariation} {v : Variation} (hr : SVRep sv v) (c : Color) (r : Int32)
+    (h : ((List.foldlM (fun (loop_state : (Bool × Evaluation × Bool)) (loop_item : (f32 × EvaluationFunction)) =>
+        if loop_state.2.2 then pure loop_state else
+          (loop_item.2 sv c Evaluation.EVEN loop_state.1).bind fun t17 =>
+          (loop_item.2 sv (Color.not c) Evaluation.EVEN t17.2).bind fun t18 =>
+          (Evaluation.sub_Evaluation t17.1 t18.1).bind fun t19 =>
+          (Evaluation.add_assign_Evaluation loop_state.2.1 (Evaluation.mul_f32 t19 loop_item.1)).bind fun t20 =>
+          pure (t18.2, t20, t18.2)) (false, Evaluation.EVEN, false) eval.EVALUATORS).bind fun t16 =>
+        i32_clamp t16.2.1 (Evaluation.NEG_INF + (1 : Int32)) (Evaluation.POS_INF - (1 : Int32))) = some r) :
+    r.toInt = clampHeuristic (evalHeuristic v c) := by
+  obtain ⟨t16, hf, hc⟩ := Option.bind_eq_some_iff.1 h
+  rw [(i32_clamp_eq _).1] at hc
+  cases hc
+  rw [(i32_clamp_eq _).2]
+  congr 1
+  obtain ⟨w1, w8, w2⟩ := weights_eq
+  have hi : ((false, Evaluation.EVEN, false) : Bool × Evaluation × Bool).1 = false ∧
+      ((false, Evaluation.EVEN, false) : Bool × Evaluation × Bool).2.2 = false ∧
+      ((false, Evaluation.EVEN, false) : Bool × Evaluation × Bool).2.1.toInt = 0 := ⟨rfl, rfl, by decide⟩
+  generalize ((false, Evaluation.EVEN, false) : Bool × Evaluation × Bool) = init0 at hf hi
+  simp only [eval.EVALUATORS, List.foldlM_cons, List.foldlM_nil, Option.bind_eq_bind, Option.pure_def] at hf
+  obtain ⟨s1, h1, hf⟩ := Option.bind_eq_some_iff.1 hf
+  obtain ⟨s2, h2, hf⟩ := Option.bind_eq_some_iff.1 hf
+  obtain ⟨s3, h3, hf⟩ := Option.bind_eq_some_iff.1 hf
+  obtain ⟨s4, h4, hf⟩ := Option.bind_eq_some_iff.1 hf
+  cases hf
+  obtain ⟨a1, b1, r1⟩ := heur_term evaluate_piece_worths.evaluate evalWorths
+    (fun c e0 r b => evaluate_piece_worths.evaluate_eq hr c e0 r b) _ c _ _ hi.1 hi.2.1 h1
+  obtain ⟨a2, b2, r2⟩ := heur_term evaluate_piece_squares.evaluate evalSquares
+    (fun c e0 r b => evaluate_piece_squares.evaluate_eq hr c e0 r b) _ c _ _ a1 b1 h2
+  obtain ⟨a3, b3, r3⟩ := heur_term evaluate_force_king_to_edge.evaluate evalKingEdge
+    (fun c e0 r b => evaluate_force_king_to_edge.evaluate_eq hr c e0 r b) _ c _ _ a2 b2 h3
+  obtain ⟨a4, b4, r4⟩ := heur_term evaluate_bad_pawns.evaluate evalBadPawns
+    (fun c e0 r b => evaluate_bad_pawns.evaluate_eq hr c e0 r b) _ c _ _ a3 b3 h4
+  rw [evalHeuristic_unfold, r4, r3, r2, r1, hi.2.2, w1, w8, w2]
+
+theorem isEmpty_res (ms : List (Wee.Move × Wee.State)) : Array.isEmpty (ms.map resOf).toArray = ms.isEmpty := by
+  cases ms <;> rfl
+
+/-- the terminal test of `Evaluator::evaluate` (checkmate / stalemate / neither) -/
+theorem terminal_eq (s : Wee.State) (c : Color) (depth : UInt64) (hd : depth.toNat < 2 ^ 31) (chk : Bool) (X : Int)
+    (H : Option Int32) (hH : ∀ r, H = some r → r.toInt = X) (r : Int32)
+    (h : (((Option.map (fun rs => (List.map resOf rs).toArray) (legalMoves? s)).bind fun tmp10 =>
+          Option.bind (if Array.isEmpty tmp10 = true then some chk else some false) fun tmp13 =>
+            Option.bind
+              (if tmp13 = true then
+                Option.bind
+                  (if (s.turn == c) = true then Option.bind (Evaluation.mate_in_ply depth) fun tmp15 => Evaluation.neg tmp15
+                  else Evaluation.mate_in_ply depth)
+                  fun tmp14 => some (Early.ret tmp14)
+              else if Array.isEmpty tmp10 = true then some (Early.ret Evaluation.EVEN) else some (Early.cont ()))
+              fun (tmp11 : Early Evaluation Unit) =>
+              match tmp11 with
+              | Early.ret tmp14 => some (Early.ret tmp14)
+              | Early.cont _ => some (Early.cont ())).bind
+      fun (tmp7 : Early Evaluation Unit) =>
+      match tmp7 with
+      | Early.ret tmp19 => some tmp19
+      | Early.cont _ => H) = some r) :
+    (match legalMoves? s with
+    | none => none
+    | some ms =>
+      if (ms.isEmpty && chk) = true then
+        some (if (s.turn == c) = true then -Ev.mateInPly depth.toNat else Ev.mateInPly depth.toNat)
+      else if ms.isEmpty = true then some 0 else some X) = some r.toInt := by
+  have hmate := Evaluation.mate_in_ply_eq depth hd
+  cases hl : legalMoves? s with
+  | none => rw [hl] at h; simp at h
+  | some ms =>
+    rw [hl] at h
+    simp only [Option.map_some, Option.bind_some, isEmpty_res] at h ⊢
+    cases hme : ms.isEmpty <;> cases chk <;>
+      simp only [hme, Bool.and_true, Bool.and_false, Bool.false_eq_true, if_true, if_false, Option.bind_some] at h ⊢
+    · rw [hH r h]
+    · rw [hH r h]
+    · cases h; rw [Evaluation.consts_eq.2.2.2]
+    · cases hm : Evaluation.mate_in_ply depth with
+      | none => rw [hm] at h; simp at h
+      | some m =>
+        rw [hm] at hmate h
+        simp only [Option.map_some, Option.some.injEq] at hmate
+        by_cases ht : (s.turn == c) = true
+        · simp only [ht, if_true, Option.bind_some] at h ⊢
+          cases hn : Evaluation.neg m with
+          | none => rw [hn] at h; simp at h
+          | some n =>
+            rw [hn] at h
+            simp only [Option.bind_some] at h
+            cases h
+            rw [Evaluation.neg_some hn, hmate]
+        · simp only [ht, if_false, Option.bind_some, Bool.false_eq_true] at h ⊢
+          cases h
+          rw [hmate]
+
+/-- **`Evaluator::evaluate`** (with `Evaluator::default()`, i.e. `fns = &EVALUATORS`) on the Rust-side value of a model
+state: whenever it returns, the model's `evaluate` returns the same number.  No seam: check, attack maps and move
+generation are the stage-3a translations. -/
+theorem Evaluator.evaluate_eq (s : Wee.State) (ok : StateOK s) (c : Color) (depth : UInt64) (hd : depth.toNat < 2 ^ 31)
+    (r : Int32) (h : Evaluator.evaluate ⟨eval.EVALUATORS⟩ (stateOf s) c depth = some r) :
+    Wee.evaluate s c depth.toNat = some r.toInt := by
+  unfold Evaluator.evaluate at h
+  simp only [Option.bind_eq_bind] at h
+  obtain ⟨sv, hsv, h⟩ := Option.bind_eq_some_iff.1 h
+  have hr := StateVariation.from_State_eq s sv hsv
+  rw [State.turn_to_move_stateOf, Board.piece_occupancy_stateOf, Option.bind_some, BitBoard.first_square_eq,
+    Option.bind_some, Board.occupancy_stateOf] at h
+  unfold Wee.evaluate kingHasMove
+  cases hk : firstOne (s.pieces.get s.turn .king) with
+  | none =>
+    rw [hk] at h
+    simp [unwrap] at h
+  | some k =>
+    rw [hk] at h
+    simp only [Option.map_some, unwrap, Option.bind_some] at h
+    have hk64 := firstOne_lt64 _ _ hk
+    have hku : k.toUInt8.toNat = k := toUInt8_toNat_lt _ (by omega)
+    have eb : State.board (stateOf s) = boardOf s.pieces := rfl
+    rw [AttackGenerator.compute_king_attacks_eq _ (by rw [hku]; exact hk64), Option.bind_some, hku, eb, Color.not_eq,
+      Board.colored_attacks_eq, Option.bind_some, State.is_check_eq, MoveGenerator.compute_legal_moves_model s ok] at h
+    simp only [BitBoard.any_eq, BitBoard.bitand_eq, BitBoard.not_eq] at h
+    have hH := fun r h => heuristic_eq hr c r h
+    generalize (Option.bind (List.foldlM _ _ _) _ : Option Int32) = H at h hH
+    simp only
+    have hmate := Evaluation.mate_in_ply_eq depth hd
+    rcases Bool.eq_false_or_eq_true (bbAny (kingAttacks k &&& ~~~s.pieces.occ &&& ~~~coloredAttacks s.pieces s.turn.opp))
+      with hkhm | hkhm <;> rcases Bool.eq_false_or_eq_true s.isCheck with hchk | hchk <;>
+      simp only [hkhm, hchk, Bool.not_true, Bool.not_false, if_true, if_false, Bool.or_true,
+      Bool.or_false, Bool.true_or, Bool.false_or, Option.pure_def, Option.bind_some, Bool.false_eq_true] at h ⊢
+    · exact terminal_eq s c depth hd true _ H hH r h
+    · rw [hH r h]
+    · exact terminal_eq s c depth hd true _ H hH r h
+    · exact terminal_eq s c depth hd false _ H hH r h
+
+/-- the model answers `none` (no king of the side to move, or the move generator panics where it is consulted) only
+where the translated function panics -/
+theorem Evaluator.evaluate_none (s : Wee.State) (ok : StateOK s) (c : Color) (depth : UInt64) (hd : depth.toNat < 2 ^ 31)
+    (hm : Wee.evaluate s c depth.toNat = Option.none) :
+    Evaluator.evaluate ⟨eval.EVALUATORS⟩ (stateOf s) c depth = Option.none := by
+  cases h : Evaluator.evaluate ⟨eval.EVALUATORS⟩ (stateOf s) c depth with
+  | none => rfl
+  | some r =>
+    have := Evaluator.evaluate_eq s ok c depth hd r h
+    rw [hm] at this
+    cases this
+
+/-! ## `Evaluator::estimate` -/
+
+theorem worth_term (p : Piece) :
+    (Evaluation.mul_f32 Evaluation.ONE_PAWN (pieceWorth p)).toInt = Ev.mulF Ev.onePawn (pieceWorth p) := by
+  rw [Evaluation.mul_f32_eq, Evaluation.consts_eq.1]
+
+theorem piece_of_some (mv : UInt32) (t : Piece) (h : Wee.Move.piece? mv = some t) : Wee.Move.piece mv = t := by
+  unfold Wee.Move.piece; rw [h]; rfl
+
+/-- **`Evaluator::estimate`**: whenever it returns, it returns the model's `estimate` (for every `Evaluator`: `self` is
+not used) -/
+theorem Evaluator.estimate_eq (self : Evaluator) (s : Wee.State) (mv : UInt32) (r : Int32)
+    (h : Evaluator.estimate self (stateOf s) mv = some r) : r.toInt = Wee.estimate s mv := by
+  unfold Evaluator.estimate at h
+  have eb : State.board (stateOf s) = boardOf s.pieces := rfl
+  have hd64 := model_dest_lt mv
+  have ho64 := model_origin_lt mv
+  have hdu : (Wee.Move.dest mv).toUInt8.toNat = Wee.Move.dest mv := toUInt8_toNat_lt _ (by omega)
+  have hou : (Wee.Move.origin mv).toUInt8.toNat = Wee.Move.origin mv := toUInt8_toNat_lt _ (by omega)
+  obtain ⟨l1, l2, l3, lcastle, ldp, lprom, lsq, _⟩ := f32_literals
+  simp only [Option.bind_eq_bind, eb, Color.not_eq, Move.color_eq, Board.colored_pawn_attacks_eq, Option.bind_some,
+    Move.destination_eq, Move.origin_eq, BitBoard.just_eq _ (by rw [hdu]; exact hd64), hdu, Move.piece_eq,
+    Move.castle_side_eq, Move.is_double_pawn_eq, BitBoard.any_eq, BitBoard.bitand_eq, Option.pure_def,
+    PIECE_PAWN_WORTHS_index] at h
+  obtain ⟨a1, h1, h⟩ := Option.bind_eq_some_iff.1 h
+  obtain ⟨cap, hcap, h⟩ := Option.bind_eq_some_iff.1 h
+  obtain ⟨a2, h2, h⟩ := Option.bind_eq_some_iff.1 h
+  obtain ⟨a3, h3, h⟩ := Option.bind_eq_some_iff.1 h
+  obtain ⟨a4, h4, h⟩ := Option.bind_eq_some_iff.1 h
+  obtain ⟨pr, hpr, h⟩ := Option.bind_eq_some_iff.1 h
+  obtain ⟨a5, h5, h⟩ := Option.bind_eq_some_iff.1 h
+  obtain ⟨pr2, hpr2, h⟩ := Option.bind_eq_some_iff.1 h
+  rw [hpr] at hpr2
+  cases hpr2
+  have hcap' := Move.capture_some mv cap hcap
+  have hpr' := Move.promotion_some mv pr hpr
+  have e0 : Evaluation.EVEN.toInt = 0 := Evaluation.consts_eq.2.2.2
+  have k10 : (10 : Int32).toInt = estCaptureFactor := by decide
+  have k2 : (2 : Int32).toInt = estSquareFactor := by decide
+  -- attacked by a pawn
+  have q1 : a1.toInt = if bbAny (coloredPawnAttacks s.pieces (Wee.Move.color mv).opp &&& bit (Wee.Move.dest mv))
+      then 0 - Ev.mulF Ev.onePawn (pieceWorth (Wee.Move.piece mv)) else 0 := by
+    by_cases hc : bbAny (coloredPawnAttacks s.pieces (Wee.Move.color mv).opp &&& bit (Wee.Move.dest mv)) = true
+    · rw [if_pos hc] at h1 ⊢
+      obtain ⟨t, ht, h1⟩ := Option.bind_eq_some_iff.1 h1
+      obtain ⟨u, hu, h1⟩ := Option.bind_eq_some_iff.1 h1
+      cases h1
+      rw [Evaluation.sub_assign_some hu, worth_term, e0, piece_of_some mv t ht]
+    · rw [if_neg hc] at h1 ⊢
+      cases h1; exact e0
+  -- capture
+  have q2 : a2.toInt = match Wee.Move.capture mv with
+      | some cap => a1.toInt + Ev.mulF Ev.onePawn (pieceWorth cap) * estCaptureFactor
+          - Ev.mulF Ev.onePawn (pieceWorth (Wee.Move.piece mv))
+      | Option.none => a1.toInt := by
+    rw [hcap']
+    cases cap with
+    | none => simp only at h2 ⊢; cases h2; rfl
+    | some cp =>
+      simp only at h2 ⊢
+      obtain ⟨t9, h9, h2⟩ := Option.bind_eq_some_iff.1 h2
+      obtain ⟨t10, h10, h2⟩ := Option.bind_eq_some_iff.1 h2
+      obtain ⟨t, ht, h2⟩ := Option.bind_eq_some_iff.1 h2
+      obtain ⟨u, hu, h2⟩ := Option.bind_eq_some_iff.1 h2
+      cases h2
+      rw [Evaluation.sub_assign_some hu, Evaluation.add_assign_some h10, Evaluation.mul_i32_some h9, worth_term, worth_term,
+        k10, piece_of_some mv t ht]
+  -- castling
+  have q3 : a3.toInt = if (Wee.Move.castleSide mv).isSome then a2.toInt + Ev.mulF Ev.onePawn estCastleBonus else a2.toInt := by
+    by_cases hc : (Wee.Move.castleSide mv).isSome = true
+    · rw [if_pos hc] at h3 ⊢
+      obtain ⟨u, hu, h3⟩ := Option.bind_eq_some_iff.1 h3
+      cases h3
+      rw [Evaluation.add_assign_some hu, Evaluation.mul_f32_eq, Evaluation.consts_eq.1, lcastle]
+    · rw [if_neg hc] at h3 ⊢
+      cases h3; rfl
+  -- double pawn push
+  have q4 : a4.toInt = if Wee.Move.isDoublePawn mv then a3.toInt + Ev.mulF Ev.onePawn estDoublePawnBonus else a3.toInt := by
+    by_cases hc : Wee.Move.isDoublePawn mv = true
+    · rw [if_pos hc] at h4 ⊢
+      obtain ⟨u, hu, h4⟩ := Option.bind_eq_some_iff.1 h4
+      cases h4
+      rw [Evaluation.add_assign_some hu, Evaluation.mul_f32_eq, Evaluation.consts_eq.1, ldp]
+    · rw [if_neg hc] at h4 ⊢
+      cases h4; rfl
+  -- promotion
+  have q5 : a5.toInt = match Wee.Move.promotion mv with
+      | some pr => a4.toInt + Ev.mulF (Ev.mulF Ev.onePawn (pieceWorth pr)) estPromotionFactor
+      | Option.none => a4.toInt := by
+    rw [hpr']
+    cases pr with
+    | none => simp only at h5 ⊢; cases h5; rfl
+    | some pp =>
+      simp only at h5 ⊢
+      obtain ⟨u, hu, h5⟩ := Option.bind_eq_some_iff.1 h5
+      cases h5
+      rw [Evaluation.add_assign_some hu, Evaluation.mul_f32_eq, worth_term, lprom]
+  -- piece-square difference
+  have q6 : r.toInt = if (Wee.Move.promotion mv).isNone then
+      a5.toInt + (pieceSquare (Wee.Move.piece mv) (Wee.Move.dest mv) (Wee.Move.color mv) estSquareWeight
+        - pieceSquare (Wee.Move.piece mv) (Wee.Move.origin mv) (Wee.Move.color mv) estSquareWeight) * estSquareFactor
+      else a5.toInt := by
+    rw [hpr']
+    by_cases hc : pr.isNone = true
+    · rw [if_pos hc] at h ⊢
+      obtain ⟨t, ht, h⟩ := Option.bind_eq_some_iff.1 h
+      obtain ⟨v1, hv1, h⟩ := Option.bind_eq_some_iff.1 h
+      obtain ⟨t', ht', h⟩ := Option.bind_eq_some_iff.1 h
+      obtain ⟨v2, hv2, h⟩ := Option.bind_eq_some_iff.1 h
+      obtain ⟨d, hd, h⟩ := Option.bind_eq_some_iff.1 h
+      obtain ⟨m, hm, h⟩ := Option.bind_eq_some_iff.1 h
+      obtain ⟨u, hu, h⟩ := Option.bind_eq_some_iff.1 h
+      cases h
+      rw [ht] at ht'; cases ht'
+      have e1 := evaluate_piece_squares.evaluate_piece_square_eq t _ (Wee.Move.color mv) _ (by rw [hou]; exact ho64) v1 hv1
+      have e2 := evaluate_piece_squares.evaluate_piece_square_eq t _ (Wee.Move.color mv) _ (by rw [hdu]; exact hd64) v2 hv2
+      rw [hou, lsq] at e1
+      rw [hdu, lsq] at e2
+      rw [Evaluation.add_assign_some hu, Evaluation.mul_i32_some hm, Evaluation.sub_some hd, e1, e2, k2, piece_of_some mv t ht]
+    · rw [if_neg hc] at h ⊢
+      cases h; rfl
+  unfold Wee.estimate
+  simp only
+  rw [q6, q5, q4, q3, q2, q1]
+  rfl
 
 end GenFns
 end Wee
